@@ -213,6 +213,9 @@ pub struct RunCfg {
     /// elements) it would yield this many further elements if asked again
     #[serde(default)]
     pub tail: usize,
+    /// how partly consumed chunks are finished: 0 dropped, 1 `count()`, 2 `last()`
+    #[serde(default)]
+    pub finish: u8,
     pub sim: SimCfg,
 }
 
@@ -285,6 +288,18 @@ pub enum Res {
         /// first observed element (`items[0]` is then the element at offset `skipped`)
         #[serde(default)]
         skipped: usize,
+        /// how the caller got rid of the rest of the chunk: 0 dropped it, 1 `count()`, 2 `last()`
+        #[serde(default)]
+        finish: u8,
+        /// result of `count()` on the rest
+        #[serde(default)]
+        finish_count: Option<usize>,
+        /// result of `last()` on the rest
+        #[serde(default)]
+        finish_last: Option<ItemObs>,
+        /// `size_hint()` disagreed with `len()` at some point: (len, lower, upper)
+        #[serde(default)]
+        hint_bad: Option<(usize, usize, Option<usize>)>,
     },
     End,
     Len(Option<usize>),
@@ -382,6 +397,7 @@ pub struct Ctx {
     pub kind: Kind,
     pub len: usize,
     pub consume_nth: usize,
+    pub finish: u8,
 }
 
 impl Ctx {
@@ -508,6 +524,10 @@ fn consume_chunk<T: Obs, I: ExactSizeIterator<Item = T>>(
             exhausted: false,
             impossible: true,
             skipped: 0,
+            finish: 0,
+            finish_count: None,
+            finish_last: None,
+            hint_bad: None,
         };
     }
     let mut items = Vec::new();
@@ -521,11 +541,16 @@ fn consume_chunk<T: Obs, I: ExactSizeIterator<Item = T>>(
     // seen by the caller and must be disposed of by the chunk iterator
     let mut skipped = 0usize;
     let mut first = true;
+    let mut hint_bad = None;
     loop {
         if items.len() >= k {
             break;
         }
         let l = values.len();
+        let sh = values.size_hint();
+        if sh != (l, Some(l)) && hint_bad.is_none() {
+            hint_bad = Some((l, sh.0, sh.1));
+        }
         let use_nth = first && ctx.consume_nth > 0 && announced > ctx.consume_nth && k > 0;
         first = false;
         let nxt = if use_nth {
@@ -551,6 +576,23 @@ fn consume_chunk<T: Obs, I: ExactSizeIterator<Item = T>>(
             break;
         }
     }
+    // the rest of the chunk: dropped, counted or reduced to its last element
+    let mut finish = 0u8;
+    let mut finish_count = None;
+    let mut finish_last = None;
+    if !exhausted && announced <= 4096 {
+        match ctx.finish {
+            1 => {
+                finish = 1;
+                finish_count = Some(values.count());
+            }
+            2 => {
+                finish = 2;
+                finish_last = values.last().map(|x| x.obs());
+            }
+            _ => drop(values),
+        }
+    }
     Res::Chunk {
         begin,
         announced,
@@ -559,6 +601,10 @@ fn consume_chunk<T: Obs, I: ExactSizeIterator<Item = T>>(
         exhausted,
         impossible: false,
         skipped,
+        finish,
+        finish_count,
+        finish_last,
+        hint_bad,
     }
 }
 
@@ -1012,6 +1058,7 @@ where
         kind: cfg.kind,
         len: cfg.len,
         consume_nth: cfg.consume_nth,
+        finish: cfg.finish,
     };
     sim::begin_run(cfg.sim.clone());
     let n = cfg.threads.len();
